@@ -573,11 +573,38 @@ class Sym:
                 continue
             if n > bound * (1 if self.concrete_loops else 40):
                 raise Unsupported('loop bound exceeded')
-            for s1, c in self.ev(s['c'], s0):
+            heads = []
+            if s.get('var') is not None:
+                # `while (auto x = f())`: the variable is declared anew for every test, the test is its conversion to bool
+                var = s['var']
+                for s1, v in self.ev_init(var['init'], s0, var['t']):
+                    s1.env[('v', var['id'])] = v
+                    if s1.throw is not None:
+                        heads.append((s1, v))
+                    else:
+                        heads.extend(self.ev(s['c'], s1))
+            else:
+                heads = self.ev(s['c'], s0)
+            for s1, c in heads:
                 if s1.throw is not None:
                     out.append((s1, None))
                     continue
                 t = self.truth(c, s1)
+                if t is True and s.get('var') is not None and not self.concrete_loops and self.loop_cut is None and n >= 2 \
+                        and not (isinstance(c, tuple) and c and c[0] == 'k'):
+                    continue        # a third layer of a peeling loop (decided by a fork inside the test): cut off, not judged
+                if t is None and not self.concrete_loops and s.get('var') is not None and self.loop_cut is None:
+                    # a peeling loop (`while (auto layer = view<K>(*p)) p = &layer->inner();`): every iteration runs the same
+                    # code on the next layer; the first two layers are explored, deeper nesting is cut off (not judged)
+                    if n >= 2:
+                        s1.conds.append((c, False))
+                        out.append((s1, None))
+                        continue
+                    s2 = s1.fork()
+                    s1.conds.append((c, True))
+                    s2.conds.append((c, False))
+                    out.append((s2, None))
+                    t = True
                 if t is None and not self.concrete_loops:
                     # only loops whose trip count is decided by constants are unrolled by default
                     raise Unsupported(f'loop with a condition that depends on symbolic values at line {s.get("ln")}')
